@@ -311,7 +311,13 @@ impl<'b, 'a: 'b> FmtVisitor<'a> {
                                 self.push_str(&self.block_indent.to_string_with_newline(config));
 
                                 // put the other lines below it, shaping it as needed
-                                let other_lines = &sub_slice[offset + 1..];
+                                // Behind a line comment a comment of its own starts: the
+                                // blanks in front of it are its indentation, not a part of it.
+                                let other_lines = if sub_slice.starts_with("//") {
+                                    sub_slice[offset + 1..].trim_start()
+                                } else {
+                                    &sub_slice[offset + 1..]
+                                };
                                 let comment_str =
                                     rewrite_comment(other_lines, false, comment_shape, config);
                                 match comment_str {
